@@ -693,7 +693,9 @@ fn setup_space_list_check(
 
                 let is_value = left_node.definition.is_value_like();
                 let is_group_value = left_node.definition.is_group_like() && last_left != current_group;
-                if is_value || is_group_value {
+                // a suffix operation results in a value, same as the value it was applied to
+                let is_suffix_value = left_node.secondary_definition == SecondaryDefinition::UnarySuffix;
+                if is_value || is_group_value || is_suffix_value {
                     trace!(
                         "Value-like definition {:?} found. Will check next token for value-like to make list",
                         left_node.definition
